@@ -144,6 +144,9 @@ def run(run):
             run.guard('activation pairing', activation_pairing, run, F, E)
             run.guard('observers', observers, run, F, E)
             run.guard('deactivation resets', deactivation_resets, run, F, E, 'C01.b')
+            # copying / moving a machine is not an activity change of the machine copied from (its registry is not touched)
+            from lint import records as _rec
+            run.guard('source untouched', _rec.source_untouched, run, 'C01.g', F, E)
             if facts.cfg_has(c, 'S'):
                 # the flow rule for load() takes the index it reads to be one a save() wrote (precondition A3). That rests on save()
                 # encoding exactly the activity state into a buffer it has cleared first: the writer/reader field tables and the
@@ -160,6 +163,7 @@ def run(run):
     run.floor('C01.c', 20)
     run.floor('C01.d', 20)
     run.floor('C01.e', 8)
+    run.floor('C01.g', 20)
     run.explanation = (
         'Typestate proof by induction over API calls, computed by a forward abstract interpretation (must-equalities between '
         'slots + constants + observer automaton) of every entry point that can reach a dispatcher, with the dispatchers as '
